@@ -225,6 +225,10 @@ class Decoder(Coder):
         :param reuse: Is this bitmap for reuse?
         :return: The bitmap as a list of 0 and 1.
         """
+        if state.n_031031 == 0:
+            # No bit was given at all (the replication of 031031 has a zero
+            # count): no bitmap is defined, as when the template is walked.
+            return []
         # First get all the bit values for the bitmap
         if state.is_compressed:
             bitmap = state.decoded_values_all_subsets[0][-state.n_031031:]
